@@ -20,12 +20,27 @@ ASSUMPTIONS = [
 _SHARED = {}
 
 
-def shared(f):
-    """one call graph + interprocedural engine per facts file (several root sets reuse the summaries)"""
-    key = f.path
+# field invariants of an attached terminal buffer: assumed at every read, and every store must re-establish them
+# (obligation class INV, lifted to callers like any other precondition)
+TERMINAL_INVARIANTS = [
+    ("terminal_state::TerminalState", ("size", "width"), 1, None),
+    ("terminal_state::TerminalState", ("size", "height"), 1, None),
+    ("buffers::Buffer", ("is_terminal_buffer",), 1, 1),      # "attached to a terminal buffer" is the properties' own precondition
+]
+
+
+def shared(f, invariants=None):
+    """one call graph + interprocedural engine per facts file and invariant set (several root sets reuse the summaries)"""
+    key = (f.path, "inv" if invariants else "plain")
     if key not in _SHARED:
-        g = CG.CallGraph(f)
-        _SHARED[key] = (g, Interproc(f, g))
+        gk = (f.path, "cg")
+        if gk not in _SHARED:
+            _SHARED[gk] = CG.CallGraph(f)
+        g = _SHARED[gk]
+        ip = Interproc(f, g)
+        ip.invariants = list(invariants or [])
+        ip.an.invariants = ip.invariants
+        _SHARED[key] = (g, ip)
     return _SHARED[key]
 
 
@@ -175,9 +190,9 @@ def regex_statics_in(f, body):
     return out
 
 
-def run_scope(chk, scope, roots, floor_roots, floor_bodies, floor_sinks, reviewed_file, trust_caret=True, extra_known_roots=()):
+def run_scope(chk, scope, roots, floor_roots, floor_bodies, floor_sinks, reviewed_file, trust_caret=True, extra_known_roots=(), invariants=None):
     f = F.load()
-    g, ip = shared(f)
+    g, ip = shared(f, invariants)
     chk.assumptions = ASSUMPTIONS
     chk.rules.append("R-PANIC/%s" % scope)
     missing = [r for r in roots if r not in f.bodies]
